@@ -102,6 +102,9 @@ Step(st, e) ==
     [] e.e = "Observers" -> OnObservers(st, e)
     [] e.e = "IoDone" -> OnIoDone(st, e)
     [] e.e = "Disc" -> RR(Disc_do(st, e.s), "")
+    \* direction A: the behaviour was generated by TLC from Gen_Sessions; after each command it says which peers have a live session
+    [] e.e = "Expect" -> IF {e.live[i] : i \in 1..Len(e.live)} = DOMAIN st.map THEN RR(st, "")
+                         ELSE RR(st, "C12:live-sessions-differ-from-the-behaviour-the-specification-generated")
     [] e.e = "FreeContext" -> RR([st EXCEPT !.teardown = TRUE], "")
     [] e.e = "Ledger" -> OnLedger(st, e)
     [] e.e = "Hang" -> RR(st, "C12:endpoint-never-became-quiet")
@@ -113,7 +116,7 @@ Consume ==
   /\ l <= Len(TraceLog)
   /\ LET e == TraceLog[l] IN
      IF e.e = "Reset"
-     THEN /\ cur' = e.id /\ skip' = FALSE /\ s' = [out |-> EmptyFn] @@ InitSess(e.timeout * 1000, e.maxidle) /\ nexec' = nexec + 1 /\ UNCHANGED <<rej, now, ndel>>
+     THEN /\ cur' = e.id /\ skip' = FALSE /\ s' = [out |-> EmptyFn] @@ [InitSess(e.timeout * 1000, e.maxidle) EXCEPT !.streamPeers = 56..63] /\ nexec' = nexec + 1 /\ UNCHANGED <<rej, now, ndel>>
      ELSE IF skip /\ e.e # "Crash" THEN UNCHANGED <<rej, cur, skip, s, now, nexec, ndel>>
      ELSE LET r == Step(s, e)
               bad == IF r.why # "" THEN r.why
